@@ -8,9 +8,15 @@ import (
 	"strconv"
 	"strings"
 
+	"encoding/binary"
+	"encoding/hex"
 	"github.com/golang/snappy"
 	"github.com/metrico/qryn/writer/utils/proto/logproto"
 	"github.com/metrico/qryn/writer/utils/proto/prompb"
+	otlpCommon "go.opentelemetry.io/proto/otlp/common/v1"
+	otlpLogs "go.opentelemetry.io/proto/otlp/logs/v1"
+	otlpRes "go.opentelemetry.io/proto/otlp/resource/v1"
+	otlpTrace "go.opentelemetry.io/proto/otlp/trace/v1"
 	"google.golang.org/protobuf/proto"
 )
 
@@ -24,6 +30,9 @@ type ExpRow struct {
 	Line               string
 	Labels             map[string]string // expected stored label set (nil: not predicted for this protocol)
 	LabelKey           string
+	Span               bool   // a trace span: one tempo_traces row + tag-index rows
+	TraceID, SpanID    string // raw bytes
+	DurNs              int64
 }
 
 // Wire is an encoded request.
@@ -65,6 +74,58 @@ func sortStrings(s []string) {
 		for j := i; j > 0 && s[j] < s[j-1]; j-- {
 			s[j], s[j-1] = s[j-1], s[j]
 		}
+	}
+}
+
+// Mutate applies a hostile recipe to an encoded request.
+func Mutate(w *Wire, recipe string, n int) {
+	b := w.Body
+	pos := func() int {
+		if len(b) == 0 {
+			return 0
+		}
+		return (n * 7919) % len(b)
+	}
+	switch recipe {
+	case "truncate":
+		w.Body = append([]byte{}, b[:pos()]...)
+	case "bitflip":
+		c := append([]byte{}, b...)
+		if len(c) > 0 {
+			c[pos()] ^= 1 << uint(n%8)
+		}
+		w.Body = c
+	case "random":
+		c := make([]byte, n%300)
+		x := uint32(n*2654435761 + 1)
+		for i := range c {
+			x = x*1664525 + 1013904223
+			c[i] = byte(x >> 24)
+		}
+		w.Body = c
+	case "empty":
+		w.Body = nil
+	case "badsnappy":
+		w.Body = append([]byte{0xff, 0xff, 0xff, 0xff, 0x7f}, b...)
+	case "gzip-header":
+		w.Encoding = "gzip"
+	case "snappy-header":
+		w.Encoding = "snappy"
+	case "bad-encoding":
+		w.Encoding = "br"
+	case "deepnest":
+		w.Body = []byte(strings.Repeat("[", 1000+n%4000))
+	case "wrong-content-type":
+		cts := []string{"application/json", "application/x-protobuf", "ndjson", "multipart/form-data; boundary=x", "binary/octet-stream", "", "text/plain"}
+		w.ContentType = cts[n%len(cts)]
+	case "wrong-route":
+		routes := []string{"/loki/api/v1/push", "/influx/api/v2/write?precision=" + []string{"ns", "us", "ms", "s", "xx", ""}[n%6], "/cf/v1/insert?ddsource=x", "/api/v2/series", "/api/v2/logs?ddsource=a",
+			"/v1/logs", "/api/v1/prom/remote/write", "/tempo/spans", "/api/v2/spans", "/v1/traces", "/ingest?from=1&until=2&name=app{a=b}", "/ingest?from=x&until=&name={", "/ingest?name=app{&from=1&until=2",
+			"/_bulk", "/idx/_doc", "/idx/_create/1", "/idx/_bulk", "/ingest?from=18446744073709551615&until=1&name=a{b=c,d}"}
+		w.Path = routes[n%len(routes)]
+	case "short-id":
+		// spans with ids of the wrong length
+		w.Body = bytes.ReplaceAll(b, []byte(`"traceId":"0000`), []byte(`"traceId":"`))
 	}
 }
 
@@ -231,7 +292,7 @@ func Encode(req int, op Op, nowNs int64) *Wire {
 				exp := map[string]string{"measurement": meas}
 				b.WriteString(meas)
 				for _, kv := range rotate(s.Labels, s.Perm) {
-					if kv[1] == "" || strings.ContainsAny(kv[1], "\"\n") {
+					if kv[1] == "" || strings.ContainsAny(kv[1], "\"\n\t\a\u007f\u2028") || len(kv[1]) > 100 {
 						continue
 					}
 					n := sanitizeName(kv[0])
@@ -252,6 +313,154 @@ func Encode(req int, op Op, nowNs int64) *Wire {
 			}
 		}
 		w.Body = b.Bytes()
+	case "datadog-logs":
+		w.Path, w.ContentType = "/api/v2/logs", "application/json"
+		var arr []map[string]any
+		for si, s := range op.Streams {
+			for ei, e := range s.Entries {
+				e.Metric = false
+				ee, x := mk(si, ei, e, true)
+				m := map[string]any{"message": ee.line, "timestamp": ee.ts / 1000000, "ddsource": "sim", "service": fmt.Sprintf("svc%d", si%2)}
+				var tags []string
+				for _, kv := range s.Labels {
+					if regexp.MustCompile(`^[a-z]+$`).MatchString(kv[0]) && regexp.MustCompile(`^[a-z0-9]+$`).MatchString(kv[1]) {
+						tags = append(tags, kv[0]+":"+kv[1])
+					}
+				}
+				m["ddtags"] = strings.Join(tags, ",")
+				arr = append(arr, m)
+				w.Rows = append(w.Rows, x)
+			}
+		}
+		if arr == nil {
+			arr = []map[string]any{}
+		}
+		w.Body, _ = json.Marshal(arr)
+	case "datadog-metrics":
+		w.Path, w.ContentType = "/api/v2/series", "application/json"
+		var series []map[string]any
+		for si, s := range op.Streams {
+			var pts []map[string]any
+			for ei, e := range s.Entries {
+				e.Metric = true
+				ee, x := mk(si, ei, e, true)
+				x.TsNs = (ee.ts / 1e9) * 1e9
+				pts = append(pts, map[string]any{"timestamp": ee.ts / 1e9, "value": ee.val})
+				w.Rows = append(w.Rows, x)
+			}
+			if pts == nil {
+				pts = []map[string]any{}
+			}
+			var res []map[string]any
+			for _, kv := range s.Labels {
+				res = append(res, map[string]any{"name": kv[1], "type": kv[0]})
+			}
+			series = append(series, map[string]any{"metric": fmt.Sprintf("metric_%d", si), "points": pts, "resources": res})
+		}
+		w.Body, _ = json.Marshal(map[string]any{"series": series})
+	case "otlp-logs":
+		w.Path, w.ContentType = "/v1/logs", "application/x-protobuf"
+		ld := &otlpLogs.LogsData{}
+		for si, s := range op.Streams {
+			rl := &otlpLogs.ResourceLogs{Resource: &otlpRes.Resource{}}
+			for _, kv := range rotate(s.Labels, s.Perm) {
+				rl.Resource.Attributes = append(rl.Resource.Attributes, &otlpCommon.KeyValue{Key: kv[0], Value: &otlpCommon.AnyValue{Value: &otlpCommon.AnyValue_StringValue{StringValue: kv[1]}}})
+			}
+			sl := &otlpLogs.ScopeLogs{Scope: &otlpCommon.InstrumentationScope{Name: "sim"}}
+			for ei, e := range s.Entries {
+				e.Metric = false
+				ee, x := mk(si, ei, e, false)
+				sl.LogRecords = append(sl.LogRecords, &otlpLogs.LogRecord{TimeUnixNano: uint64(ee.ts), Body: &otlpCommon.AnyValue{Value: &otlpCommon.AnyValue_StringValue{StringValue: ee.line}}})
+				w.Rows = append(w.Rows, x)
+			}
+			rl.ScopeLogs = append(rl.ScopeLogs, sl)
+			ld.ResourceLogs = append(ld.ResourceLogs, rl)
+		}
+		raw, err := proto.Marshal(ld)
+		if err != nil {
+			panic(err)
+		}
+		w.Body = raw
+	case "zipkin", "zipkin-nd", "otlp-traces":
+		ids := func(si, ei int) (string, string) {
+			var t [16]byte
+			var sp [8]byte
+			binary.BigEndian.PutUint64(t[0:8], uint64(req)+1)
+			binary.BigEndian.PutUint64(t[8:16], uint64(si)+1)
+			binary.BigEndian.PutUint32(sp[0:4], uint32(req)+1)
+			binary.BigEndian.PutUint16(sp[4:6], uint16(si)+1)
+			binary.BigEndian.PutUint16(sp[6:8], uint16(ei)+1)
+			return string(t[:]), string(sp[:])
+		}
+		if op.Proto == "otlp-traces" {
+			w.Path, w.ContentType = "/v1/traces", "application/x-protobuf"
+			td := &otlpTrace.TracesData{}
+			for si, s := range op.Streams {
+				rs := &otlpTrace.ResourceSpans{Resource: &otlpRes.Resource{}}
+				for _, kv := range s.Labels {
+					rs.Resource.Attributes = append(rs.Resource.Attributes, &otlpCommon.KeyValue{Key: kv[0], Value: &otlpCommon.AnyValue{Value: &otlpCommon.AnyValue_StringValue{StringValue: kv[1]}}})
+				}
+				ss := &otlpTrace.ScopeSpans{}
+				for ei, e := range s.Entries {
+					e.Metric = false
+					ee, x := mk(si, ei, e, false)
+					x.Span, x.Line = true, ""
+					x.TraceID, x.SpanID = ids(si, ei)
+					x.DurNs = int64(1000 * (ei + 1))
+					ss.Spans = append(ss.Spans, &otlpTrace.Span{TraceId: []byte(x.TraceID), SpanId: []byte(x.SpanID), Name: x.Tag,
+						StartTimeUnixNano: uint64(ee.ts), EndTimeUnixNano: uint64(ee.ts + x.DurNs)})
+					w.Rows = append(w.Rows, x)
+				}
+				rs.ScopeSpans = append(rs.ScopeSpans, ss)
+				td.ResourceSpans = append(td.ResourceSpans, rs)
+			}
+			raw, err := proto.Marshal(td)
+			if err != nil {
+				panic(err)
+			}
+			w.Body = raw
+			break
+		}
+		w.Path, w.ContentType = "/tempo/spans", "application/json"
+		if op.Proto == "zipkin-nd" {
+			w.Path, w.ContentType = "/api/v2/spans", "ndjson"
+		}
+		var spans []json.RawMessage
+		for si, s := range op.Streams {
+			for ei, e := range s.Entries {
+				e.Metric = false
+				ee, x := mk(si, ei, e, false)
+				x.Span, x.Line = true, ""
+				x.TraceID, x.SpanID = ids(si, ei)
+				x.TsNs = (ee.ts / 1000) * 1000
+				x.DurNs = int64(1000 * (ei + 1))
+				tags := map[string]string{}
+				for _, kv := range s.Labels {
+					tags[kv[0]] = kv[1]
+				}
+				m := map[string]any{"traceId": hex.EncodeToString([]byte(x.TraceID)), "id": hex.EncodeToString([]byte(x.SpanID)), "name": x.Tag,
+					"timestamp": ee.ts / 1000, "duration": x.DurNs / 1000, "localEndpoint": map[string]any{"serviceName": fmt.Sprintf("svc%d", si)}, "tags": tags}
+				if ei%2 == 1 {
+					m["timestamp"] = strconv.FormatInt(ee.ts/1000, 10)
+				}
+				b, _ := json.Marshal(m)
+				spans = append(spans, b)
+				w.Rows = append(w.Rows, x)
+			}
+		}
+		if op.Proto == "zipkin-nd" {
+			var b bytes.Buffer
+			for _, sp := range spans {
+				b.Write(sp)
+				b.WriteByte('\n')
+			}
+			w.Body = b.Bytes()
+		} else {
+			if spans == nil {
+				spans = []json.RawMessage{}
+			}
+			w.Body, _ = json.Marshal(spans)
+		}
 	default:
 		panic("unknown proto " + op.Proto)
 	}
